@@ -41,6 +41,8 @@ def unmarshaller(
     """
     nodes = graph.static_order(t)
     context: ctx.TypeContext[routines.AbstractUnmarshaller] = ctx.TypeContext()
+    # `Any` members are not part of the graph, they are passed through.
+    context[tp.Any] = routines.NoOpUnmarshaller(tp.Any, context)
     if not nodes:
         return routines.NoOpUnmarshaller(t=t, context=context, var=None)  # type: ignore[arg-type]
 
